@@ -118,6 +118,8 @@ class App:
             def f(prefix, values=None):
                 if values is None:
                     self.box['t'].append(['hook', h, cps(prefix)])
+                    # a route hook's return value means nothing: the inner hooks and the route callback still run
+                    return [True, prefix, len(self.box['t']), None][h % 4]
                 else:
                     self.box['t'].append(['partial', h, cps(prefix), [enc_value(v) for v in values]])
                     return 'partial'
@@ -314,6 +316,10 @@ class App:
         env = environ(verb or 'GET', pinfo)
         if verb is None:
             del env['REQUEST_METHOD']          # Request.method defaults to GET
+        if (verb or '').upper() == 'OPTIONS':
+            # a CORS preflight is an OPTIONS request like any other: 405 + Allow when the route has no OPTIONS / ANY entry
+            env['HTTP_ACCESS_CONTROL_REQUEST_METHOD'] = 'POST'
+            env['HTTP_ORIGIN'] = 'https://example.org'
         rewrite = None
         if sent is not None:
             try:
@@ -838,7 +844,7 @@ def render_rule(rng, segs, flavour=None):
 
 
 SAMPLE = {
-    'plain': ['v', 'abc', 'ab', '7', 'a b', 'é', '', 'x.y', 'a\rb', '\r', '\n', '\x00', 'A'],
+    'plain': ['v', 'abc', 'ab', '7', 'a b', 'é', '', 'x.y', 'a\rb', '\r', '\n', '\x00', 'A', 'cafe\u0301', 'e\u0301', '\u212b'],
     'int': ['12', '-3', '007', '١٢', '5x', '', '-', '1.5', '12\n', '\n12'],
     'float': ['1.5', '-2', '3.', '.5', '1e3', '٣.٤', '1.5\n'],
     're': ['abc', 'a', 'cab', 'abd', '', 'x', 'abc\n', 'a\nb'],
@@ -883,7 +889,8 @@ def mutate_path(rng, p):
     if r < 0.80:
         return p[:max(1, k)]
     if r < 0.88:
-        return p[:k] + rng.choice(['\r', '\n', '\x00', 'é', '١', '\U0001F600']) + p[k:]
+        return p[:k] + rng.choice(['\r', '\n', '\x00', 'é', '١', '\U0001F600', 'e\u0301', '\u0301', '\u212b', 'A\u030a',
+                                   '\u1100\u1161', 'e\u0301']) + p[k:]
     if r < 0.94:
         segs = p.split('/')
         i = rng.randrange(len(segs))
